@@ -351,6 +351,11 @@ def extract(repo):
     if not left_sees:
         raise ValueError("EXPRop2__out: the left operand is no longer handed the parent operator (model assumes it is)")
 
+    # ---- the printf formats real2exp starts from (the model's REAL literals are the `%#.15g` text: the # flag keeps the point)
+    real_formats = re.findall(r'snprintf\(\s*result\s*,\s*PP_SMALL_BUF_SZ\s*,\s*"([^"]*)"', r2e)
+    if not real_formats:
+        raise ValueError("real2exp: no snprintf( result, PP_SMALL_BUF_SZ, \"…\" ) found")
+
     # ---- the paren argument EXPRop1_out hands to the operand of NOT / unary minus ("1": always parenthesised when it is an
     # operator expression; anything else, e.g. a function of the operand, is recorded as the text)
     op1b = _strip_c_comments(_body(pe, r"void\s+EXPRop1_out\s*\([^)]*\)\s*\{"))
@@ -427,6 +432,8 @@ def extract(repo):
     L.append(f"def rightOperandSeesParent : Bool := {'true' if right_sees else 'false'}")
     L.append("/-- the `paren` argument `EXPRop1_out` hands to the operand of NOT / unary minus (the model prints that operand with `paren = true`) -/")
     L.append(f"def unaryOperandParen : String := {_lstr(unary_operand_paren)}")
+    L.append("/-- the printf formats `real2exp` formats the value with (before it removes trailing zeros) -/")
+    L.append("def realFormats : List String := " + _llist([_lstr(f) for f in real_formats]))
     L.append("/-- what exppp writes for the constants: (constant, printer: wrap = EXPR__out / buffer = EXPRstring, text) -/")
     L.append("def constSpellings : List (String × String × String) := " + _llist([f"({_lstr(a)}, {_lstr(b)}, {_lstr(c)})" for a, b, c in const_sp]))
     L.append(f"def piText : String := {_lstr([c for a, b, c in const_sp if a == 'PI' and b == 'wrap'][0])}")
